@@ -10,7 +10,9 @@ It implements exactly what koreo and kr8s' APIObject need from an `api`:
   * `faults[i]` injects a fault at the i-th API call (0-based, GETs included):
       "raise-before" | "raise-after" | 404 | 409 | 500 | "hang";
   * `latency(i, method, key)` (seconds, virtual) is slept before the call takes effect;
-  * `decorate(obj)` is applied to whatever the server stores (server-side bookkeeping).
+  * `decorate(obj)` is applied to whatever the server stores (server-side bookkeeping);
+  * `lookups` records every `lookup_kind` discovery call; with `log_lookups = True` they also appear
+    in `log` as method "LOOKUP" entries (without a call index, so fault indices do not shift).
 """
 from __future__ import annotations
 
@@ -64,6 +66,8 @@ class Cluster:
         self._namespace = namespace
         self.calls = 0
         self.tag = None          # harness-set label (e.g. the step being run) copied into log entries
+        self.lookups: list[str] = []   # every kind-to-plural discovery (`lookup_kind`) that reached the API
+        self.log_lookups = False       # opt-in: also put them into `log` as method "LOOKUP" (no call index)
 
     # ---- what kr8s / koreo use
     @property
@@ -72,6 +76,10 @@ class Cluster:
 
     async def lookup_kind(self, kind: str):
         base = kind.split(".")[0]
+        self.lookups.append(kind)
+        if self.log_lookups:   # a discovery round-trip is an API call too; it does not consume a fault index
+            self.log.append({"i": None, "method": "LOOKUP", "version": None, "plural": None, "namespace_arg": None,
+                             "name": kind, "body": None, "fault": None, "tag": self.tag, "applied": True})
         return (None, base.lower() + "s", True)
 
     async_lookup_kind = lookup_kind
